@@ -771,7 +771,7 @@ class IntermediateCodeGen(AbstractCodeGen):
                 self.fakeidx += 1
 
             index = OrderedDict()
-            index['module'] = self._importMap.get(idxName, self.moduleName[0])
+            index['module'] = self._importMap.get(self.transOpers(idxName), self.moduleName[0])
             index['object'] = idxName
             index['implied'] = isImplied
             idxStrlist.append(index)
